@@ -15,7 +15,7 @@ invariance, species-swap column exchange as numbers, floating-point accuracy.  T
 from __future__ import annotations
 
 from .common import *  # noqa
-from .grlib import REMOVE_PBC
+from .grlib import REMOVE_PBC, no_wrap_possible
 from ..vg import Interp
 
 # (function, reason) - occurrences in these functions are accepted as class (4)
@@ -119,6 +119,15 @@ def classify_path(p, path):
                     v = grlib.inline_image(grlib._inline(b), record=False)
                     if v[0] == "ok":
                         return "imaged-difference"
+            # definite only when nothing above the difference could fold it back into the cell
+            WRAPLIKE = ("numpy.rint", "numpy.round", "numpy.around", "numpy.floor", "numpy.ceil", "numpy.trunc", "numpy.mod", "numpy.remainder", "numpy.fmod",
+                        "numpy.where", "numpy.select", "numpy.divmod", "builtins.round", "builtins.divmod", "math.floor")
+            for b in anc[idx + 1:]:
+                for x in walk(b):
+                    # an operation can only wrap the displacement if coordinates flow into it
+                    if ((x[0] == "call" and (x[1] in WRAPLIKE or (isinstance(x[1], str) and x[1].startswith("PyMatterSim.")) or not isinstance(x[1], str))) or
+                            (x[0] == "bin" and x[1] in ("%", "//"))) and pos_rooted(x):
+                        return "unresolved-difference"
             return "raw-difference"
         if k == "bin" and a[1] == "*":
             other = a[3] if a[2] == cur else a[2]
@@ -131,6 +140,8 @@ def classify_path(p, path):
                 any(x[0] == "sym" and x[1] in ("qvector",) for x in walk(other)) or any(x[0] == "attr" and x[2] in ("qvector", "qvalues") for x in walk(other))
             if inside_exp and commensurate and not other_has_exp:
                 return "phase"
+            if other_has_exp:
+                return "weight:" + show(other)[:40]        # the coordinate multiplies a phase factor instead of sitting inside it
             return "product:" + show(other)[:40]
         if k == "bin" and a[1] == "+":
             other = a[3] if a[2] == cur else a[2]
@@ -203,8 +214,15 @@ def run(run: Run, pkg: Package) -> None:
                                "difference-in-wrong-slot": "the difference is not the vector being imaged",
                                "bare": "absolute coordinates are stored/returned: translating the system changes the result"}.get(cls.split(":")[0],
                               "absolute coordinates enter arithmetic directly: translating all particles changes the result")
-                        run.ob("R-PBC-FLOW", fq, key, False, "coordinates reach results only as minimum-imaged differences, box-commensurate phases or shape queries",
-                               f"{cls}: {show(atom)[:60]} in {key_of(ev)[:80]}", witness=wit, loc=loc_of(it, ev))
+                        # definite classes: a raw position difference flowing through operations none of which can wrap it; a
+                        # difference handed to remove_pbc in another slot; a coordinate used as a weight of a phase factor.
+                        # Every other class is a form this rule does not know: undecided.
+                        c0 = cls.split(":")[0]
+                        definite = c0 in ("raw-difference", "difference-in-wrong-slot", "weight")
+                        if c0 == "weight":
+                            wit = "the absolute coordinate of a particle multiplies its Fourier term: translating the system changes the modulus"
+                        run.ob("R-PBC-FLOW", fq, key, False if definite else None, "coordinates reach results only as minimum-imaged differences, box-commensurate phases or shape queries",
+                               f"{cls}: {show(atom)[:60]} in {key_of(ev)[:80]}", witness=wit, loc=loc_of(it, ev), sound=True)
         if seen:
             nfun += 1
     run.extra["functions_with_coordinate_flow"] = nfun
@@ -248,9 +266,13 @@ def check_particle_index(run, pkg):
             if not (base[0] == "call" and base[1] in ("numpy.zeros", "numpy.copy")):
                 continue
             P = ploops[0].target
-            ok = P in comps
+            ok = True if P in comps else None
+            if ok is None:
+                for c_ in comps:
+                    if any(x == P for x in walk(c_)) and eqv(c_, P) is False:
+                        ok = False         # an index computed from the particle counter that is not the counter itself
             n += 1
             run.ob("R-IDX", fq, f"slot@{key_of(ev)[:60]}", ok, "the result of particle i is stored at index i (relabelling particles permutes the output accordingly)", show(idx)[:50],
-                   witness=None if ok else "per-particle values are stored at an index that is not the particle's own", loc=loc_of(it, ev))
+                   witness=None if ok else "per-particle values are stored at an index that is not the particle's own", loc=loc_of(it, ev), sound=True)
         if n == 0:
             run.ob("R-IDX", fq, "slots", None, "per-particle stores found", "none recognised", loc=it.fi.loc())
